@@ -414,6 +414,70 @@ def c14_2(ck, prog):
     r2.note('%d DBusString locals examined' % m)
 
 
+def c14_2d(ck, prog, rid='C14.2d'):
+    r = ck.rule(rid, 'every container a function opens on a message under construction is closed or abandoned '
+                'on every exit of that function (a failed close counts as closed, as documented); an open '
+                'container owns a temporary signature string that nothing else can free', 'PAIR',
+                breaks='an out-of-memory exit while filling an array / struct / variant leaks the container\'s '
+                       'signature string and leaves the message unusable', floor=8)
+    OPEN = 'dbus_message_iter_open_container'
+    CLOSE = {'dbus_message_iter_close_container', 'dbus_message_iter_abandon_container',
+             'dbus_message_iter_abandon_container_if_open'}
+    n = 0
+    for fn in lib.prod_funcs(prog):
+        if not (fn.file.startswith('bus/') or fn.file.startswith('dbus/')):
+            continue
+        opens = {}
+        for b, i, c in fn.calls(OPEN):
+            sub = strip_addr(c['args'][3]) if len(c['args']) > 3 else None
+            if sub is not None and is_ref(sub) and sub.get('kind') == 'local':
+                opens.setdefault(sub['id'], (sub['name'], []))[1].append(c['id'])
+        for vid, (vname, ids) in opens.items():
+            n += 1
+
+            def on_event(user, ev, ctx, vid=vid, ids=ids):
+                st = user
+                if isinstance(st, tuple):
+                    k = ctx.result_known(st[1])
+                    if k is True:
+                        st = 'open'
+                    elif k is False:
+                        st = 'closed'
+                if ev['ev'] == 'call':
+                    c = ev['e']
+                    if c['id'] in ids:
+                        if st == 'open':
+                            ctx.report('container %s is opened again while still open' % vname, c['line'],
+                                       key=('reopen', vname))
+                        return ('pending', c['id'])
+                    if c.get('callee') in CLOSE and len(c['args']) > 1:
+                        a = strip_addr(c['args'][1])
+                        if a is not None and is_ref(a) and a.get('id') == vid:
+                            return 'closed'
+                    # the sub-iterator handed to a helper that may close it: stop tracking
+                    if c.get('callee') not in (OPEN,) and st == 'open' and fn.name != c.get('callee'):
+                        pass
+                return st
+
+            def on_exit(user, ctx, ret, ev, vname=vname):
+                st = user
+                if isinstance(st, tuple):
+                    k = ctx.result_known(st[1])
+                    st = 'closed' if k is False else 'open'
+                if st == 'open':
+                    ctx.report('container %s is still open at this exit (neither closed nor abandoned)' % vname,
+                               ev['line'] if ev else fn.endline, key=('open-at-exit', vname))
+            ex = Explorer(fn, init='closed', on_event=on_event, on_exit=on_exit, calls={OPEN}, track='auto',
+                          cap=600000).run()
+            key = '%s:%s' % (fn.name, vname)
+            if ex.reports:
+                for k, rep in ex.reports.items():
+                    r.violation(key + ':' + k[0], fn.name, fn.file, rep['line'], rep['reason'], rep['path'])
+            else:
+                r.ok(key)
+    r.note('%d opened containers examined' % n)
+
+
 # ---------------------------------------------------------------------------
 # C14.2c / C02.4 signature bookkeeping of the message builder
 
@@ -668,6 +732,125 @@ def c14_5(ck, prog):
          'whose atomicity is C12.4 / C14.3')
 
 
+LIST_FILL = {'_dbus_list_append', '_dbus_list_prepend', '_dbus_list_append_link', '_dbus_list_prepend_link',
+             '_dbus_list_insert_after', '_dbus_list_insert_before'}
+LIST_READ = {'_dbus_list_get_first_link', '_dbus_list_get_next_link', '_dbus_list_get_last_link',
+             '_dbus_list_get_prev_link', '_dbus_list_get_first', '_dbus_list_get_last', '_dbus_list_get_length',
+             '_dbus_list_length_is_one', '_dbus_list_find_last'}
+LIST_DRAIN = {'_dbus_list_clear', '_dbus_list_clear_full', '_dbus_list_foreach'}
+
+
+def c14_2e(ck, prog):
+    r = ck.rule('C14.2e', 'a local list that a function fills is cleared (or handed on) on every failure exit',
+                'PAIR', breaks='each failed request leaks the list links collected so far', floor=5)
+    n = 0
+    # callees that append to a list passed by address (DBusList **param)
+    fillers = {}            # name -> indices of the DBusList** parameters it appends to
+    for g in lib.prod_funcs(prog):
+        pids = {p['id']: k for k, p in enumerate(g.params) if (p.get('t') or '').replace(' ', '') == 'DBusList**'}
+        for b, i, c in g.calls():
+            if c.get('callee') in LIST_FILL and c['args'] and is_ref(c['args'][0]) and c['args'][0].get('id') in pids:
+                fillers.setdefault(g.name, set()).add(pids[c['args'][0]['id']])
+    for fn in lib.prod_funcs(prog, LEAK_FILES | {'bus/bus.c'}):
+        lists = {}
+        for b, i, ev in fn.events():
+            if ev['ev'] == 'decl' and ev['var'].get('kind') == 'local' and \
+                    (ev['var'].get('t') or '').replace(' ', '') == 'DBusList*':
+                lists[ev['var']['id']] = ev['var']['name']
+        if not lists:
+            continue
+        for vid, vname in lists.items():
+            fills = [c for b, i, c in fn.calls() if c.get('callee') in LIST_FILL and c['args'] and
+                     is_ref(strip_addr(c['args'][0]) or {}) and (strip_addr(c['args'][0]) or {}).get('id') == vid
+                     and c['args'][0].get('k') == 'un']
+            fills += [c for b, i, c in fn.calls() if c.get('callee') in fillers and any(
+                a.get('k') == 'un' and a.get('op') == '&' and is_ref(a['e']) and a['e'].get('id') == vid
+                and k in fillers[c['callee']] for k, a in enumerate(c['args']))]
+            if not fills:
+                continue        # a cursor / a list filled elsewhere
+            n += 1
+            fill_ids = {c['id'] for c in fills}
+
+            def on_event(user, ev, ctx, vid=vid, fill_ids=fill_ids):
+                st = user
+                if isinstance(st, tuple):
+                    k = ctx.result_known(st[1])
+                    if k is True:
+                        st = 'filled'
+                    elif k is False:
+                        st = st[2]
+                if ev['ev'] == 'call':
+                    c = ev['e']
+                    mine = [k for k, a in enumerate(c['args']) if a.get('k') == 'un' and a.get('op') == '&' and
+                            is_ref(a['e']) and a['e'].get('id') == vid]
+                    if c['id'] in fill_ids:
+                        if c.get('t') == 'void' or c['callee'].endswith('_link'):
+                            return 'filled'
+                        return ('pending', c['id'], st if not isinstance(st, tuple) else 'empty')
+                    if mine:
+                        if c.get('callee') in fillers and set(mine) & fillers[c['callee']]:
+                            # a callee that appends to the list it is given: filled when it succeeded
+                            if c.get('t') == 'void':
+                                return 'filled'
+                            return ('pending', c['id'], st if not isinstance(st, tuple) else 'empty')
+                        if c.get('callee') in LIST_READ:
+                            return st
+                        # cleared, popped in a loop, or handed to a callee that takes the list over
+                        return 'empty'
+                    if any(is_ref(a) and a.get('id') == vid for a in c['args']):
+                        return 'empty'      # the head pointer itself is passed on (ownership moves)
+                for lhs, how, rhs in written_lvalues(ev):
+                    if rhs is not None and isinstance(rhs, dict) and is_ref(rhs) and rhs.get('id') == vid and \
+                            not (is_ref(lhs) and lhs.get('kind') == 'local'):
+                        return 'empty'      # stored into an object
+                    if is_ref(lhs) and lhs.get('id') == vid and how in ('=', 'decl') and (rhs is None or is_int(rhs, 0)):
+                        if st == 'filled' and how == '=':
+                            ctx.report('list %s is reset to NULL while it still holds links' % vname,
+                                       ev['line'], key=('nulled', vname))
+                        return 'empty'
+                return st
+
+            def on_exit(user, ctx, ret, ev, vname=vname, vid=vid):
+                st = user
+                if isinstance(st, tuple):
+                    k = ctx.result_known(st[1])
+                    st = st[2] if k is False else 'filled'
+                if st == 'filled':
+                    if ret is not None and is_ref(ret) and ret.get('id') == vid:
+                        return
+                    v = ctx.env.get(('v', vid))
+                    if v == ('c', 0):
+                        return
+                    if ctx.ret_status(ret) != 'fail':
+                        return      # the property speaks about failing operations; success exits are not judged
+                    ctx.report('list %s still holds links at this failure exit (not cleared, not handed on)' % vname,
+                               ev['line'] if ev else fn.endline, key=('list-leak', vname))
+            ex = Explorer(fn, init='empty', on_event=on_event, on_exit=on_exit, calls=LIST_FILL | set(fillers),
+                          track='auto', cap=400000).run()
+            key = '%s:%s' % (fn.name, vname)
+            if ex.reports:
+                for k, rep in ex.reports.items():
+                    r.violation(key + ':' + k[0], fn.name, fn.file, rep['line'], rep['reason'], rep['path'])
+            else:
+                r.ok(key)
+    r.note('%d locally filled lists examined' % n)
+
+
+def c14_7(ck, prog):
+    from rules.C09 import c09_2
+    r7 = ck.rule('C14.7', 'a pending-reply slot is consumed only under an undo hook registered before the slot '
+                 'leaves the table (shared with C09.2): an out-of-memory failure while routing a reply leaves the '
+                 'pending replies exactly as they were', 'TS',
+                 breaks='the callee is told NoMemory but the slot is gone: the retried reply is refused as '
+                        'unrequested and the caller never gets an answer', floor=4)
+    save = ck.rule
+    ck.rule = lambda *a, **k: r7
+    try:
+        c09_2(ck, prog)
+    finally:
+        ck.rule = save
+
+
 def run(ck):
     ck.explanation = (
         'Static rules over bus/services.c, bus/driver.c, bus/connection.c, bus/dispatch.c, bus/signals.c, '
@@ -684,6 +867,9 @@ def run(ck):
         c14_1(ck, prog)
         c14_2(ck, prog)
         signature_pairing(ck, prog)
+        c14_2d(ck, prog)
+        c14_2e(ck, prog)
+        c14_7(ck, prog)
         c14_3(ck, prog)
         c14_4(ck, prog)
         c14_5(ck, prog)
